@@ -103,7 +103,8 @@ PROPS = {
         "theorems": ["Sqlize.C02.columns", "Sqlize.C02.up_down_identity", "Sqlize.Abs.emitDown_correct", "Sqlize.C02.printed_columns", "Sqlize.walkCols_down_refines", "Sqlize.C02.diffed_columns", "Sqlize.C02.columns_from_scripts",
                      "Sqlize.C02.indexes_and_keys_from_scripts", "Sqlize.Abs.Idx.emitDown_correct", "Sqlize.Abs.Idx.emitDownKeep_correct",
                      "Sqlize.Table.walkIdx_refines_down", "Sqlize.Table.walkFk_refines_down",
-                     "Sqlize.C02.indexes_and_keys_up_then_down", "Sqlize.Abs.Idx.up_then_down", "Sqlize.Abs.Idx.execAll_perm"],
+                     "Sqlize.C02.indexes_and_keys_up_then_down", "Sqlize.Abs.Idx.up_then_down", "Sqlize.Abs.Idx.execAll_perm",
+                     "Sqlize.C02.tables_from_scripts", "Sqlize.Migration.migrate_tbl_down"],
         "suites": [{"name": "pair"}],
         "corr_points": ["load-old", "load-new", "state-old", "state-new", "Diff", "state-diff", "StringUp", "StringDown"],
         "rule": PAIR_RULE,
